@@ -19,6 +19,8 @@ Readable == {"json", "xml", "rdf"}
 DestKinds == {"string", "text", "binary", "path"}
 SrcKinds == {"content_str", "content_bytes", "text", "binary", "path",
              "pathurl",       \* a local file name containing '#' and ';' (URL syntax)
+             "bintext", "bincontent",   \* the bytes a binary destination received, as text stream / as content
+             "ntf",           \* tempfile.NamedTemporaryFile: a binary file object that is not an io.IOBase
              "textfile"}      \* a file-backed text stream in UTF-16 the library itself wrote through that stream
 StreamKinds == {"text", "binary"}
 
